@@ -104,7 +104,9 @@ def run_seq(rng, res, kind, ty, nops):
                 (k, rid) = rng.choice(sorted(ref, key=lambda e: (str(e[0]), e[1])))
                 k2 = rnd_key(rng, ty, pool)
                 rid2 = rid if rng.random() < 0.5 else new_rid()
-                if (k2, rid2) in ref or (uniq and rids_of(k2) and k2 != k):
+                if rng.random() < 0.2:
+                    k2, rid2 = k, rid          # identity update: what UPDATE .. SET a = <same value> issues when the row stays in place
+                if ((k2, rid2) in ref and (k2, rid2) != (k, rid)) or (uniq and rids_of(k2) and k2 != k):
                     continue
                 a = db.cmd("ixupd t 0 %s %d %d %s %d %d" % (keytok(ty, k), rid[0], rid[1], keytok(ty, k2), rid2[0], rid2[1]))
                 ref.discard((k, rid)); ref.add((k2, rid2))
@@ -169,7 +171,8 @@ def run(res, replay=None):
     res.rule = ("per index kind (skip list, unique skip list, B-tree, hash) and key type (int, float, string): sequences of 1,500 (thorough 12,000) insert / delete / update-entry / lookup / bounded-scan operations "
                 "through the index.Index interface with duplicate keys, adjacent values, extremes and long strings (enough to split and empty nodes), every lookup and scan compared with a reference multimap; "
                 "concurrent part: 2-8 writers (disjoint keys, insert/delete alternating), 2-8 readers and scanners on one skip-list / B-tree index: stable keys always found, lookups consistent with the key's "
-                "presence intervals, scans sorted and complete on stable keys; non-trivial = distinct (kind, type, sequence)")
+                "presence intervals, scans sorted and complete on stable keys; long-key workload (three entries per skip-list node) in which writers check their own completed inserts and deletes; "
+                "UpdateEntry flipping an entry under concurrent lookups and scans (the entry is there exactly once at any time); non-trivial = distinct (kind, type, sequence)")
     res.trusted = COMMON_TRUSTED + ["python reference multimap (checks/c17.py)", "the concurrent driver's presence intervals use a global atomic counter"]
     res.assumptions = ["hash index: no ordered scan, UpdateEntry unimplemented (F-HASH-UPDATE), capacity limited (kept below 30 distinct keys); unique skip list: one entry per key",
                        "the latch-coupling protocol of the skip list and the B-link tree library are not modelled: concurrency is covered by observed histories only"]
@@ -198,4 +201,25 @@ def run(res, replay=None):
         for v in viol[:2]:
             if len(res.oracle_failures) < 5:
                 res.oracle_failures.append(("verifharness c17c %s %d %d" % (kind, w, r), v))
+    # second family of concurrent workloads (harness/c17d.go): long keys (about three entries per skip-list node: nodes are emptied,
+    # unlinked and split all the time) with writers checking their own completed operations, and UpdateEntry under readers
+    plan = [("s", "long", 8, 4000), ("s", "long", 16, 1500), ("s", "upd", 3, 3000), ("b", "upd", 3, 3000)] * (1 if res.tier == "quick" else 8) + ([("s", "long", 16, 300)] if res.tier != "quick" else [])
+    for kind, mode, ng, nops in plan:
+        d = tempfile.mkdtemp(prefix="c17d_", dir=os.path.join(BUILD, "tmp"))
+        try:
+            try:
+                p = subprocess.run([HARNESS_BIN, "c17d", "-", d, kind, mode, str(ng), str(nops), str(rng.randrange(10**6)), "60"], capture_output=True, text=True, timeout=150, cwd=d,
+                                   env=dict(os.environ, GOMAXPROCS=str(rng.choice([4, 8, 16]))))
+                lines = p.stdout.strip().split("\n")
+            except subprocess.TimeoutExpired:
+                lines = ["VIOLATION the concurrent index workload did not finish"]
+            res.note_case("c17d|%s|%s|%d|%d" % (kind, mode, ng, len(res.extra.get("concurrent_runs", []))), True)
+            res.extra.setdefault("concurrent_runs", []).append("%s %s %s" % (kind, mode, lines[-1] if lines else ""))
+            if not any(l.startswith("DONE") for l in lines) and not any(l.startswith("VIOLATION") for l in lines):
+                lines.append("VIOLATION the workload died: " + (p.stderr.strip().split("\n")[0][:200] if p.stderr else "no output"))
+            for v in [l for l in lines if l.startswith("VIOLATION")][:2]:
+                if len(res.oracle_failures) < 5:
+                    res.oracle_failures.append(("verifharness c17d - <dir> %s %s %d %d <seed> 60" % (kind, mode, ng, nops), "%s index, %s: %s" % ({"s": "skip-list", "b": "B-tree"}[kind], {"long": "long keys, writers check their own completed operations", "upd": "UpdateEntry under concurrent readers"}[mode], v[10:])))
+        finally:
+            shutil.rmtree(d, ignore_errors=True)
     res.samples = res.extra.get("concurrent_runs", [])[:3]
